@@ -1,15 +1,20 @@
 #!/bin/bash
-# run every seeded change against the check of its property (and optional extra checks);
+# run every seeded change against the check of its property, JOBS at a time (default 4);
 # writes seeded/RESULTS.txt.  /repo must be clean.
 cd /verif
+JOBS=${JOBS:-4}
 OUT=seeded/RESULTS.txt
-: > $OUT
-for d in seeded/*/; do
-  n=$(basename $d)
-  [ -f $d/patch.diff ] || continue
+TMP=$(mktemp -d /tmp/seedres-XXXXXX)
+one() {
+  n=$1
+  d=seeded/$n
   p=$(python3 -c "import json;print(json.load(open('$d/meta.json'))['property'])")
-  if ! git -C /repo apply --check $PWD/$d/patch.diff 2>/dev/null; then echo "$n $p PATCH-DOES-NOT-APPLY" >> $OUT; continue; fi
+  if ! git -C /repo apply --check $PWD/$d/patch.diff 2>/dev/null; then echo "$n $p PATCH-DOES-NOT-APPLY" > $TMP/$n; return; fi
   r=$(bash tools/run_seeded.sh $n $p 2>&1 | grep -E "^(VIOLATION|OK)" | head -1 | cut -c1-160)
-  echo "$n $p $r" >> $OUT
-done
+  echo "$n $p $r" > $TMP/$n
+}
+export -f one; export TMP
+ls seeded | while read n; do [ -f seeded/$n/patch.diff ] && echo $n; done | xargs -P $JOBS -I{} bash -c 'one {}'
+cat $TMP/* | sort -V > $OUT
+rm -rf $TMP
 cat $OUT
